@@ -7,7 +7,7 @@ outcomes of the primitives supplied by the oracle and the iterated lists by `Int
 
 * `Kind`, `State.kinds`, `countReleases`, `countSelects` — the observable shape of a trace;
 * `shape p = some sh` — a syntactic analysis: every path through `p` (no event-bearing loop, no `ret`) performs exactly the
-  kinds `sh`, in this order (`ite` needs the same shape on both branches; loops are admitted when their body is silent);
+  kinds `sh`, in this order (`ite` needs the same shape on both branches; loops are accepted when their body is silent);
   `shape_sound`;
 * `forIn_fold_gen`, `forIn_kinds`, `forIn_counts` — a `forIn` over a list of length `n` whose body makes exactly `k`
   releases and `j` selects on every path makes `n·k` releases and `n·j` selects;
@@ -631,6 +631,22 @@ theorem RunL.pre_assign {pre0 : List Stmt} {x : String} {e : Expr} (hq : shapeL 
   obtain ⟨f, he⟩ := RunL.single I oracle h1
   have ht := exec_assign_inv I oracle hrP he
   exact ⟨sP, h0, ht, by rw [ht]; exact hrP, by rw [ht]; simpa using hkP⟩
+
+/-- `A ; x := e ; B` with `A`, `B` quiet and `x` not assigned in `B`: at the end `x` holds the value of `e` in the state after
+`A`, and every variable `B` does not assign (other than `x`) still has the value it had there -/
+theorem RunL.assign_then_quiet {A B : List Stmt} {x : String} {e : Expr} (hA : shapeL A = some [])
+    (hx : x ∉ B.flatMap writes) {s t : State Val} (hs : s.ret = none)
+    (h : RunL I oracle (A ++ .assign x e :: B) s t) :
+    ∃ sX, RunL I oracle A s sX ∧ sX.ret = none ∧ t.env x = evalE I sX.env e ∧
+      ∀ y, y ∉ B.flatMap writes → y ≠ x → t.env y = sX.env y := by
+  obtain ⟨sX, hA', hrest⟩ := RunL.of_append I oracle h
+  obtain ⟨hrX, _⟩ := RunL.shape I oracle hA hs hA'
+  obtain ⟨f, m, he, hB⟩ := RunL.cons_inv I oracle hrest
+  have hm := exec_assign_inv I oracle hrX he
+  refine ⟨sX, hA', hrX, ?_, ?_⟩
+  · rw [RunL.env I oracle x hx hB, hm]; simp
+  · intro y hy hyx
+    rw [RunL.env I oracle y hy hB, hm]; simp [hyx]
 
 theorem RunL.ret_kinds {e : Expr} {s t : State Val} (h : RunL I oracle [.ret e] s t) : t.kinds = s.kinds := by
   obtain ⟨f, he⟩ := RunL.single I oracle h
